@@ -308,7 +308,7 @@ func runC02(c *Ctx) {
 			g2, _ := cf.Guarded(cf.LocOf(site.Node), ctxAlive(f))
 			c.Check(K(f.Name, "effect "+short(site.Call().Fun)+" only when not cancelled"), site.Node.Pos(), g2, "… and whose context was not cancelled", "call not guarded by ctx.Err() == nil")
 		}
-		c.Check("side-effect sites", 0, n >= 5, "at least 5 tracking/reset sites exist", "found "+itoa(n))
+		c.Check("side-effect sites", 0, n >= 2, "at least 2 tracking/reset sites exist", "found "+itoa(n))
 		for _, site := range p.AllCalls("(*dht.IpfsDHT).refreshRTIfNoShortcut") {
 			g, _ := site.F.CFG().Guarded(site.F.CFG().LocOf(site.Node), ctxAlive(site.F))
 			c.Check(K(site.F.Name, "refresh only when not cancelled"), site.Node.Pos(), g, "the refresh timer is reset only when the operation's context is alive", "call not guarded by ctx.Err() == nil")
@@ -322,7 +322,7 @@ func runC02(c *Ctx) {
 			if !ok {
 				return true
 			}
-			if id, isID := kv.Key.(*ast.Ident); !isID || id.Name != "completed" {
+			if id, isID := kv.Key.(*ast.Ident); !isID || eng.NameOf(id) != "completed" {
 				return true
 			}
 			e := kv.Value
